@@ -24,13 +24,30 @@ def die(msg):
     sys.exit(2)
 
 
+def const_value(expr, earlier, where):
+    """value of the constant expression of a bitflags constant (integer literals in any base with or without a type
+    suffix, << | & + - ( ), references to earlier constants of the same type)"""
+    e = re.sub(r"(?:Self|%s)\s*::\s*(\w+)\s*\.\s*bits\s*(?:\(\s*\))?" % re.escape(where), lambda m: str(earlier.get(m.group(1), "?")), expr)
+    e = re.sub(r"\b(0x[0-9a-fA-F_]+|0b[01_]+|0o[0-7_]+|\d[\d_]*)\s*(?:u32|u64|usize|i32)?\b", lambda m: str(int(m.group(1).replace("_", ""), 0)), e)
+    e = e.replace("!", "~")
+    if not re.fullmatch(r"[\d\s<>|&+\-()~]+", e):
+        die("cannot evaluate the bitflags constant expression %r in %s" % (expr, where))
+    try:
+        return int(eval(e, {"__builtins__": {}}, {})) & 0xffffffff
+    except Exception:
+        die("cannot evaluate the bitflags constant expression %r in %s" % (expr, where))
+
+
 def parse_spirv():
     src = open(os.path.join(REPO, "spirv", "autogen_spirv.rs")).read()
     masks = {}
     order = []
     for m in re.finditer(r"bitflags!\s*\{(.*?)pub struct (\w+)\s*:\s*u32\s*\{(.*?)\}\s*\}", src, re.S):
         name = m.group(2)
-        consts = [(c.group(1), int(c.group(2))) for c in re.finditer(r"const (\w+) = (\d+)u32", m.group(3))]
+        # a constant's value may be spelled 4u32, 0x4, 1 << 2, Self::A.bits() | Self::B.bits(), ...: evaluated, not matched
+        consts = []
+        for c in re.finditer(r"const (\w+)\s*=\s*([^;]+);", m.group(3)):
+            consts.append((c.group(1), const_value(c.group(2), dict(consts), name)))
         masks[name] = consts
         order.append(("mask", name))
     enums = {}
